@@ -55,9 +55,7 @@ pub fn run(ctx: &Ctx) -> Report {
             }
             a.restore_checkpoint(&cp);
         });
-        if sample_key(seed, i) < (1u64 << 52) {
-            acc.sample(sample_key(seed, i), json!({"tree": hx(&classic), "limits": format!("0..={}", classic.len() + 1)}));
-        }
+        acc.maybe_sample(sample_key(seed, i), || json!({"tree": hx(&classic), "limits": format!("0..={}", classic.len() + 1)}));
     });
     rep.absorb(acc);
     rep.evaluations = rep.acc.get("evaluations");
